@@ -162,7 +162,9 @@ def _apps():
     out = {}
     for mode in MODES:
         routes = [Route('/static/', static_ep), Route('/one/<name>/', single_ep), Route('/many/<parts+>/', multi_ep),
-                  Route('/leaf/<name>', single_ep), GET('/getonly/<name>/', single_ep)]
+                  Route('/leaf/<name>', single_ep), GET('/getonly/<name>/', single_ep),
+                  # a POST-only branch route in front of a GET leaf route on the same segment: a GET never gets the POST route's redirect
+                  POST('/mixed/<name>/', single_ep), GET('/mixed/<name>', single_ep)]
         out[mode] = Application(routes, slash_mode=mode)
     # inherited through embedding, and not inherited
     inner = Application([Route('/one/<name>/', single_ep)], slash_mode=S_STRICT)
@@ -175,7 +177,7 @@ def _apps():
 
 
 _APPS = _apps()
-_KINDS = ['static', 'one', 'many', 'leaf', 'getonly']
+_KINDS = ['static', 'one', 'many', 'leaf', 'getonly', 'mixed']
 
 
 def _url(kind, seg_i, seg2_i, lead, mid, trail):
@@ -207,6 +209,12 @@ def _one_hop(app_key, kind_i, seg_i, seg2_i, lead, mid, trail, qs_i, method_i):
     qs = QS[qs_i]
     method = METHODS[method_i]
     cl = app.get_local_client()
+    if kind == 'mixed' and method not in ('GET', 'HEAD'):
+        return True
+    # earlier requests on the same application must not matter: the same path with ANOTHER query string, and a method
+    # that no route on this path admits (405)
+    cl.open(path, method=method, query_string=QS[(qs_i + 1) % len(QS)])
+    cl.open(path, method='DELETE', query_string=qs)
     r1 = cl.open(path, method=method, query_string=qs)
     req0 = Request(EnvironBuilder(path=path, query_string=qs).get_environ())
     decoded = req0.path
@@ -239,7 +247,7 @@ def _one_hop(app_key, kind_i, seg_i, seg2_i, lead, mid, trail, qs_i, method_i):
         from urllib.parse import unquote_to_bytes
         # same decoded path; same query (a raw non-ASCII byte and its percent-encoding are the same query)
         return body[-2] == canon and unquote_to_bytes(body[-1].encode('latin-1')) == unquote_to_bytes(req0.query_string)
-    if mode == S_REDIRECT and is_branch and admitted and canon != decoded and not (kind == 'leaf'):
+    if mode == S_REDIRECT and is_branch and admitted and canon != decoded and not (kind in ('leaf', 'mixed')):
         return False          # must have been redirected
     if mode == S_STRICT and canon != decoded:
         return r1.status_code == 404      # strict: a non-canonical path does not match (leaf routes included)
